@@ -193,3 +193,29 @@ if __name__ == "__main__":
         except Exception as e:     # noqa
             r = "witness raised %s" % _err(e)
         print("%-55s %s" % (f.__name__, "holds" if r is None else "DEVIATES: " + r))
+
+
+# ------------------------------------------------------------------ C10-6 (found by an independent mutation agent)
+def nested_deriver_named_like_its_base():
+    """SpaceGraph.get_relative let the shared trailing part of the two dotted names swallow the whole name of
+    the base: a nested space A.B (or A.X.B) deriving from the top-level space B could not derive B's references
+    to itself / its cells at all (RuntimeError: must not happen)"""
+    out = []
+    for depth in (1, 2):
+        for mode in ("auto", "relative"):
+            m = _reset()
+            b = m.new_space("B")
+            b.new_cells("c", formula="lambda x: x")
+            b.set_ref("me", b, mode)
+            b.set_ref("mc", b.c, mode)
+            host = m.new_space("A")
+            if depth == 2:
+                host = host.new_space("X")
+            try:
+                d = host.new_space("B", bases=b)
+            except Exception as e:     # noqa
+                out.append("depth %d, %s: %s.new_space('B', bases=B) raised %s" % (depth, mode, host.fullname, _err(e)))
+                continue
+            if d.me is not d or d.mc is not d.c:
+                out.append("depth %d, %s: references of the nested B are bound to %r %r" % (depth, mode, d.me, d.mc))
+    return "; ".join(out) or None
